@@ -188,6 +188,9 @@ class MinimizerIMinuit(MinimizerBase):
                 _mat = None
             self._load_state()
             self._par_cov_mat = _mat
+            if _mat is not None:
+                # the parameter errors cached before HESSE are MIGRAD's estimates: read them again
+                self._par_err = None
         return None if self._par_cov_mat is None else self._par_cov_mat.copy()
 
     @property
